@@ -348,8 +348,12 @@ def pred_c05(T, inp):
 
 
 def pred_c05_text(T, inp):
-    """molecule produced by a reader from molfile text (incl. explicitly written defaults)"""
-    g = T.read(inp["molfile"])
+    """molecule produced by a reader from molfile text (incl. explicitly written defaults, out-of-range values, self-bonds):
+    either the reader rejects the file with its own exception or the emitted string obeys grammar and layout"""
+    try:
+        g = T.read(inp["molfile"])
+    except T.MolfileParserException:
+        return None
     s = tucan_of(T, g)
     return layout_check(T, g, s)
 
@@ -358,7 +362,10 @@ def pred_c02_pair(T, inp):
     g1 = build(T, inp["a"]["atoms"], inp["a"]["edges"])
     g2 = build(T, inp["b"]["atoms"], inp["b"]["edges"])
     same_string = tucan_of(T, g1) == tucan_of(T, g2)
-    same_mol = brute_canon(inp["a"]["atoms"], inp["a"]["edges"]) == brute_canon(inp["b"]["atoms"], inp["b"]["edges"])
+    if max(len(inp["a"]["atoms"]), len(inp["b"]["atoms"])) <= 7:
+        same_mol = brute_canon(inp["a"]["atoms"], inp["a"]["edges"]) == brute_canon(inp["b"]["atoms"], inp["b"]["edges"])
+    else:
+        same_mol = iso(T, g1, g2)  # VF2 of networkx as independent oracle for larger molecules
     if same_string and not same_mol:
         return f"two non-isomorphic molecules share the TUCAN string {tucan_of(T, g1)!r}"
     if same_mol and not same_string:
@@ -743,6 +750,28 @@ def gen_c02(T, tier, seed, budget, out: Outcome):
             out.run(T, "c02_pair", inp, json.dumps(inp))
             if len(out.violations) >= 3:
                 return
+    # positional isotopomers: one or two labels moved over the atoms of one skeleton (the classic collision risk)
+    skeletons = [([{"sym": x} for x in "CHHHOH"], [[0, 1], [0, 2], [0, 3], [0, 4], [4, 5]]),          # methanol
+                 ([{"sym": x} for x in "CCOHHHHHH"], [[0, 1], [1, 2], [0, 3], [0, 4], [0, 5], [1, 6], [1, 7], [2, 8]]),  # ethanol
+                 ([{"sym": x} for x in "CNHHHHH"], [[0, 1], [0, 2], [0, 3], [0, 4], [1, 5], [1, 6]]),     # methylamine
+                 ([{"sym": x} for x in "CCCCCC"], [[0, 1], [1, 2], [2, 3], [3, 4], [4, 5]]),
+                 ([{"sym": x} for x in "CCOOHHHH"], [[0, 1], [1, 2], [1, 3], [3, 4], [0, 5], [0, 6], [0, 7]])]  # acetic acid
+    for atoms0, edges in skeletons[: (3 if tier == "quick" else 5)]:
+        variants = []
+        for i in range(len(atoms0)):
+            for lab in ({"mass": 2 if atoms0[i]["sym"] == "H" else 13 if atoms0[i]["sym"] == "C" else 18}, {"rad": 2}):
+                if "rad" in lab and atoms0[i]["sym"] == "H":
+                    continue
+                atoms = [dict(a) for a in atoms0]
+                atoms[i].update(lab)
+                variants.append(atoms)
+        pairs = list(itertools.combinations(range(len(variants)), 2))
+        rnd.shuffle(pairs)
+        for i, j in pairs[: (40 if tier == "quick" else 400)]:
+            if time.time() - t0 > budget or len(out.violations) >= 3:
+                return
+            inp = {"a": {"atoms": variants[i], "edges": edges}, "b": {"atoms": variants[j], "edges": edges}}
+            out.run(T, "c02_pair", inp, json.dumps(inp))
     # known hard pairs: same degree sequence
     hard = [((6, [(i, (i + 1) % 6) for i in range(6)]), (6, [(0, 1), (1, 2), (2, 0), (3, 4), (4, 5), (5, 3)])),
             ((6, SYMMETRIC["prism"][1]), (6, SYMMETRIC["K33"][1]))]
@@ -989,7 +1018,20 @@ def gen_c06(T, tier, seed, budget, out: Outcome):
         m = molgen.rand_mol(rnd, 6, zero_values=False)
         r1 = random.Random(rnd.random())
         base = molgen.render_v3000(random.Random(1), m, cuts=False, blank_runs=False, extra_kw=False, index_maps=False)
-        dim = rnd.choice(["coordinates", "bond types", "charges", "header", "index values", "foreign keywords", "CRLF", "continuation/blank runs"])
+        dim = rnd.choice(["coordinates", "bond types", "charges", "header", "index values", "foreign keywords", "CRLF", "continuation/blank runs",
+                          "V2000 charge encoding", "comment line looking like a continued V30 line"])
+        if dim == "V2000 charge encoding":
+            m2k = molgen.rand_mol_v2000(rnd, 8)
+            for a in m2k.atoms:
+                a["rad"] = 0  # identity data is the same in both files: no radicals, only charges move between encodings
+            mode_a = {"chg_lines": True, "stale_codes": True, "zeros": rnd.random() < .3, "extras": True}
+            mode_b = {"chg_lines": False, "stale_codes": False, "zeros": False, "extras": False}
+            ta = molgen.render_v2000(rnd, m2k, mode_a)
+            if "M  CHG" not in ta and "M  RAD" not in ta:
+                continue
+            tb = molgen.render_v2000(rnd, molgen.Mol([dict(a, chg=0) for a in m2k.atoms], m2k.bonds), mode_b)
+            out.run(T, "c06", {"text_a": ta, "text_b": tb, "dim": dim}, (ta, tb))
+            continue
         m2 = molgen.Mol([dict(a) for a in m.atoms], list(m.bonds))
         kw = dict(cuts=False, blank_runs=False, extra_kw=False, index_maps=False)
         if dim == "coordinates":
@@ -1004,6 +1046,8 @@ def gen_c06(T, tier, seed, budget, out: Outcome):
                     a["chg"] = r1.choice([-2, -1, 1, 3])
         elif dim == "header":
             kw["header"] = ("another name", "  XYZ 01012500002D", "a comment line")
+        elif dim == "comment line looking like a continued V30 line":
+            kw["header"] = (rnd.choice(["name", "M  V30 x-"]), "  prog", rnd.choice(["M  V30 -", "M  V30 some comment -"]))
         elif dim == "index values":
             kw["index_maps"] = True
         elif dim == "foreign keywords":
@@ -1054,6 +1098,19 @@ def gen_c05(T, tier, seed, budget, out: Outcome):
         mode = {"chg_lines": True, "stale_codes": False, "zeros": True, "extras": False}
         text2 = molgen.render_v2000(rnd, m2, mode)
         out.run(T, "c05_text", {"molfile": text2}, text2)
+        # files outside the format's value ranges: negative mass / radical, a bond from an atom to itself
+        m3 = molgen.rand_mol(rnd, 4)
+        a = rnd.choice(m3.atoms)
+        a[rnd.choice(["mass", "rad"])] = rnd.choice([-1, -5, -13])
+        if a["sym"] in "DT":
+            a["sym"] = "C"
+        text3 = molgen.render_v3000(rnd, m3, cuts=False)
+        out.run(T, "c05_text", {"molfile": text3}, text3)
+        m4 = molgen.rand_mol(rnd, 4, zero_values=False)
+        i = rnd.randrange(len(m4.atoms))
+        m4.bonds.append((i, i, 1))
+        text4 = molgen.render_v3000(rnd, m4, cuts=False)
+        out.run(T, "c05_text", {"molfile": text4}, text4)
 
 
 def gen_c15(T, tier, seed, budget, out: Outcome):
